@@ -77,6 +77,27 @@ try:
     types2 = pydsdl.read_namespace(root)
     for a, b in zip(types, types2):
         obs.append([a == b, hash(a) == hash(b)])
+    # nested traversal as documented: the offset of a composite field is handed on as the base offset of its own fields
+    # (and of the elements of short fixed arrays); the base offset then follows whatever huge array precedes the field
+    for t in types:
+        if isinstance(t, pydsdl.ServiceType):
+            continue
+        for f, o in t.iterate_fields_with_offsets():
+            dt = f.data_type
+            if isinstance(dt, pydsdl.CompositeType):
+                for f2, o2 in dt.iterate_fields_with_offsets(o):
+                    obs.append([f2.name, o2.is_aligned_at_byte(), str(o2.min), str(o2.max)])
+            elif isinstance(dt, pydsdl.FixedLengthArrayType) and dt.capacity <= 4:
+                for i2, o2 in dt.enumerate_elements_with_offsets(o):
+                    obs.append([i2, o2.is_aligned_at_byte(), str(o2.max)])
+    # small sets that have been expanded numerically before (cheap, and legitimate) meet huge ones in comparisons
+    small = [t for t in types if not isinstance(t, pydsdl.ServiceType) and t.full_name in ("ns.Sub", "ns.VarComp", "ns.Empty")]
+    for t in small:
+        obs.append(sorted(t.bit_length_set))
+    for a in small:
+        for b in types:
+            if not isinstance(b, pydsdl.ServiceType):
+                obs.append([a.bit_length_set == b.bit_length_set, b.bit_length_set != a.bit_length_set, a == b, b in small])
     tracing(False)
     ev_q = _verif_trace.drain()
     solver = ("modulo", "expand")  # the other hooks (statements, reader, serdes) are not this check's concern
@@ -114,6 +135,8 @@ def family(e: int):
     fs["ns/Delim.1.0.dsdl"] = "uint8[<=%d] payload\n@extent %d\n" % (max(1, cap // 8), 8 * (cap + 64))
     fs["ns/UsesDelim.1.0.dsdl"] = "ns.Delim.1.0[<=%d] ds\nuint3 z\nns.Delim.1.0 one\n@sealed\n" % min(cap, 2 ** 40)
     fs["ns/Uni.1.0.dsdl"] = "@union\nuint8[<=%d] a\nns.Inner.1.0[2] b\nbool c\n@sealed\n" % cap
+    # composite fields and short fixed arrays behind huge arrays: their offsets are bases of nested traversals
+    fs["ns/Behind.1.0.dsdl"] = "ns.Inner.1.0[<=%d] big\nns.Sub.1.0 sub\nns.VarComp.1.0[3] three\nns.Inner.1.0 inner\n@sealed\n" % min(cap, 2 ** 20)
     return fs
 
 @core.safe
@@ -147,7 +170,7 @@ def run(ctx):
                 "composite / zero-length composite x fixed / variable arrays, narrow sets with a huge fixed part, nesting 2 and 3, "
                 "delimited wrappers, a union) is instantiated for capacity " % (len(family(8)) - 3) +
                 "exponents 1, 4, 8, 16, 32, 63, read twice and queried (min, max, extent, fixed_length, byte alignment of the "
-                "type and every field offset, ==, hash) in a subprocess with the solver hooks on; every solver event is "
+                "type and every field offset incl. nested traversals with the field offset as base, ==, hash, comparisons of previously expanded small sets with huge ones) in a subprocess with the solver hooks on; every solver event is "
                 "validated by TLC; bytecodes executed inside the bit length set package are counted. Non-trivial = "
                 "repetition event with a count >= 2 * divisor; distinct by event signature")
     ctx.assumptions = ["wall time and memory as such are not decided; the decided statement is the operation-count form: no growth of the "
